@@ -12,6 +12,7 @@ import logging
 from typing import TYPE_CHECKING, Any
 
 from xknx.devices.fan import FanSpeedMode
+from xknx.exceptions import ConversionError
 from xknx.remote_value import (
     GroupAddressesType,
     RemoteValue,
@@ -263,7 +264,14 @@ class Climate(Device):
         """Send new target temperature or setpoint_shift to KNX bus."""
         if self.base_temperature is not None:
             # implies initialized_for_setpoint_shift_calculations
-            temperature_delta = target_temperature - self.base_temperature
+            try:
+                temperature_delta = target_temperature - self.base_temperature
+            except OverflowError as err:  # int beyond the float range
+                raise ConversionError(
+                    "Could not convert target temperature",
+                    value=target_temperature,
+                    device_name=self.name,
+                ) from err
             await self.set_setpoint_shift(temperature_delta)
         else:
             validated_temp = self.validate_value(
